@@ -25,7 +25,12 @@ def main():
                 if r.get("status") == "MISSED" and r["name"] in via_other:
                     r["status"] = f"not by this check; caught by {via_other[r['name']]}'s check"
             rows = [r for r in rows if "@" not in r["name"]]
-            good = sum(1 for r in rows if r.get("status") in ("caught", "ok-silent") or str(r.get("status")).startswith("not by this check"))
+            # seeded changes that a later repair of /repo made harmless (their own demonstration passes with the patch applied)
+            for r in rows:
+                mp_ = os.path.join(VERIF, "seeded", r["name"], "meta.json")
+                if os.path.exists(mp_) and json.load(open(mp_)).get("neutralised"):
+                    r["status"] = "neutralised by a later fix in /repo (no longer breaks the property); was caught before"
+            good = sum(1 for r in rows if r.get("status") in ("caught", "ok-silent") or str(r.get("status")).startswith(("not by this check", "neutralised")))
             out += [f"### {prop}: {good}/{len(rows)} as expected", "", "| change | outcome | passes the test suite | signature(s) reported | what it needs |", "|---|---|---|---|---|"]
             for r in rows:
                 sigs = "; ".join(sorted({s.split(" key=")[0].replace("signature=", "") for s in r.get("signatures", [])}))[:160]
